@@ -608,14 +608,19 @@ def r9_batch_split(repo: Repo, rep):
         return
     rep.saw(fi)
     n = 0
+    loop_vars = {l.target.id for l in ast.walk(fi.node) if isinstance(l, ast.For) and isinstance(l.target, ast.Name)}
+    tests = []
     for node in ast.walk(fi.node):
         if isinstance(node, ast.If):
-            sets_elem = any(isinstance(a, ast.Assign) and isinstance(a.value, ast.Subscript) and isinstance(a.value.value, ast.Subscript) for a in ast.walk(node) if isinstance(a, ast.Assign))
-            if not sets_elem:
-                continue
-            n += 1
-            names = {x.attr for x in ast.walk(node.test) if isinstance(x, ast.Attribute) and isinstance(x.value, ast.Name) and x.value.id == "self"}
-            rep.check(R, not names, fi.site(node), fi.fq, "the split test compares lengths only", f"also consults self.{sorted(names)}: {dump(node.test)[:80]}", f"split depends on {sorted(names)}")
+            if any(isinstance(a, ast.Assign) and isinstance(a.value, ast.Subscript) and dump(a.value.slice) in loop_vars for a in ast.walk(node)):
+                tests.append(node)
+        elif isinstance(node, ast.IfExp):
+            if isinstance(node.body, ast.Subscript) and dump(node.body.slice) in loop_vars:
+                tests.append(node)
+    for node in tests:
+        n += 1
+        names = {x.attr for x in ast.walk(node.test) if isinstance(x, ast.Attribute) and isinstance(x.value, ast.Name) and x.value.id == "self"}
+        rep.check(R, not names, fi.site(node), fi.fq, "the split test compares lengths only", f"also consults self.{sorted(names)}: {dump(node.test)[:80]}", f"split depends on {sorted(names)}")
     if n == 0:
         rep.undecided(R, fi.site(), fi.fq, "the per-element split `inp_i[key] = inp[key][i]` under a test", "not found")
 
